@@ -677,11 +677,44 @@ theorem derived_split (Pi : Nat) (plains : List Nat) : ∀ (es : List Ev) (inn :
       refine (List.Perm.cons _ (ih inn herr)).trans ?_
       exact List.perm_middle.symm
 
+theorem innerOK_cart (Pi : Nat) (plains : List Nat) : ∀ (es : List Ev) (inn : List (Nat × TV)),
+    (runWith (cartAdd 1 (List.range Pi)) (es.filter (isInner Pi)) ((inn.lookup 0).getD []) []).err = none →
+    InnerOK (nestItems Pi plains) es inn := by
+  intro es
+  induction es with
+  | nil => intro inn _; trivial
+  | cons ev es ih =>
+    obtain ⟨p, t⟩ := ev
+    intro inn herr
+    simp only [InnerOK, findSub_nest]
+    by_cases hp : p < Pi
+    · have hf1 : ((p, t) :: es).filter (isInner Pi) = (p, t) :: es.filter (isInner Pi) := by
+        simp [List.filter_cons, isInner, hp]
+      rw [hf1] at herr
+      simp only [hp, if_true, innerAdd]
+      simp only [runWith] at herr
+      generalize hr : cartAdd 1 (List.range Pi) ((inn.lookup 0).getD []) p (Elem.ofTok p t) = r at herr ⊢
+      cases hre : r.err with
+      | some x => rw [hre] at herr; simp at herr
+      | none =>
+        rw [hre] at herr
+        simp only at herr
+        rw [runWith_shift] at herr
+        simp only at herr
+        have hl : ((setI inn 0 r.tv).lookup 0).getD [] = r.tv := by rw [lookup_setI]; rfl
+        exact ⟨rfl, ih (setI inn 0 r.tv) (by rw [hl]; exact herr)⟩
+    · have hf1 : ((p, t) :: es).filter (isInner Pi) = es.filter (isInner Pi) := by
+        simp [List.filter_cons, isInner, hp]
+      rw [hf1] at herr
+      simp only [hp, if_false]
+      exact ih inn herr
+
 /-- **nested `dot[cart₁[p0 … p(Pi-1)], plain ports]`, any arrival order**: the schemas `runNested` emits are — each
     up to the order of its entries — exactly one combination per complete tag of the derived specification, which
     is a function of the input stream only -/
 theorem nested_cart_any_order {Pi L : Nat} {plains : List Nat} (S es : List Ev) (h : WFNest Pi L plains S)
     (hp : es.Perm S) :
+    (runNested (nestItems Pi plains) es).err = none ∧
     ∃ N, EmRel (runNested (nestItems Pi plains) es).out N ∧
       N.Perm (specE (plains.length + 1) (derivedSpec Pi plains S)) := by
   have hin : (es.filter (isInner Pi)).Perm (S.filter (isInner Pi)) := hp.filter _
@@ -694,7 +727,11 @@ theorem nested_cart_any_order {Pi L : Nat} {plains : List Nat} (S es : List Ev) 
     unfold derivedSpec
     exact (hout.map mk0).append ((hp.filter _).map _)
   have hlen : (nestItems Pi plains).length = plains.length + 1 := by simp [nestItems]
-  rw [runNested_out, hlen]
-  exact (dotElems_any_order _ _ (derivedSpec_wf h) (derivedSpec_ok h) hD).2
+  have hres := dotElems_any_order _ _ (derivedSpec_wf h) (derivedSpec_ok h) hD
+  refine ⟨?_, ?_⟩
+  · rw [runNested_err _ _ (innerOK_cart Pi plains es [] (by simpa using herr)), hlen]
+    exact hres.1
+  · rw [runNested_out, hlen]
+    exact hres.2
 
 end SFV.Comb
